@@ -3948,6 +3948,12 @@ fn write_residuals<W: BitWrite>(
 
     let block_size = predictor_order + residuals.len();
 
+    // the most negative 32-bit value is not a valid residual in the format
+    // (and its Rice folding would overflow), so such a candidate is unusable
+    if residuals.contains(&i32::MIN) {
+        return Err(Error::ResidualOverflow);
+    }
+
     if options.use_rice2 {
         match try_reduce_rice(best_partitions(options, block_size, residuals)) {
             CodingMethod::Rice(partitions) => {
